@@ -325,10 +325,298 @@ Proof. unfold add_held. rewrite flat_map_app. reflexivity. Qed.
 Lemma add_held_app2 b a : add_held (b ++ a) = add_held b ++ add_held a.
 Proof. unfold add_held. apply flat_map_app. Qed.
 
+Lemma pendingb_mark_failed_all t order now s :
+  pendingb t (mark_failed_all order now s) = negb (memb t order) && pendingb t s.
+Proof.
+  unfold mark_failed_all. revert s. induction order as [|x o IH]; intros s.
+  - reflexivity.
+  - cbn [fold_left]. rewrite IH, pendingb_upd_failed. unfold memb. cbn [existsb].
+    destruct (t =? x); destruct (existsb (N.eqb t) o); reflexivity.
+Qed.
+
+Lemma held_set_closed m : held (set_closed m) = held m.
+Proof. destruct m; reflexivity. Qed.
+
+Ltac hnorm :=
+  unfold held, executing, push, set_add, set_poll, set_work, set_queue, set_idle, set_closed, queue_of in *;
+  cbn [m_in m_re m_work m_add m_poll m_closed m_idle_in m_idle_re] in *;
+  repeat rewrite ?add_held_app, ?add_held_app2, ?map_app, ?count_occ_app in *;
+  cbn [a_held p_held p_rest snd map add_held flat_map app w_t] in *.
+
+Lemma pendingb_single t0 t stt f c d l :
+  pendingb t0 [mkrow t stt f c d l] = (t =? t0) && status_eqb stt Pending.
+Proof. unfold pendingb. cbn. rewrite orb_false_r. reflexivity. Qed.
+
+Lemma not_stored_not_pending t s : storedb t s = false -> pendingb t s = false.
+Proof. intros H. destruct (pendingb t s) eqn:P; [|reflexivity]. apply pendingb_stored in P. congruence. Qed.
+
+Ltac deq x y :=
+  destruct (N.eq_dec x y) as [?E|?E];
+  [subst; rewrite ?N.eqb_refl in *
+  |rewrite ?(proj2 (N.eqb_neq x y) E), ?(proj2 (N.eqb_neq y x) (not_eq_sym E)) in *].
+
+Lemma snap_ok_store sto sto' m m' :
+  snap_ok sto m -> p_rest (m_poll m') = p_rest (m_poll m) ->
+  (forall r, In r sto -> r_st r = Failed -> In r sto') -> snap_ok sto' m'.
+Proof.
+  intros [H1 H2] E K. unfold snap_ok. rewrite E. split; [assumption|].
+  intros r Hr. destruct (H2 r Hr). split; auto.
+Qed.
+
+Lemma keep_failed_mark sto t now :
+  NoDup (ids sto) -> pendingb t sto = true ->
+  forall r, In r sto -> r_st r = Failed -> In r (mark_failed t now sto).
+Proof.
+  intros Hn P r Hin F. apply In_upd_other; [assumption|]. intros E. subst t.
+  rewrite (failed_not_pending sto r Hn Hin F) in P. discriminate.
+Qed.
+
+Lemma keep_failed_remove sto t :
+  NoDup (ids sto) -> pendingb t sto = true ->
+  forall r, In r sto -> r_st r = Failed -> In r (remove_row t sto).
+Proof.
+  intros Hn P r Hin F. apply In_remove_other; [assumption|]. intros E. subst t.
+  rewrite (failed_not_pending sto r Hn Hin F) in P. discriminate.
+Qed.
+
+Lemma NoDup_ids_mark_failed t now s : NoDup (ids s) -> NoDup (ids (mark_failed t now s)).
+Proof. rewrite ids_mark_failed. auto. Qed.
+Lemma NoDup_ids_mark_pending t s : NoDup (ids s) -> NoDup (ids (mark_pending t s)).
+Proof. rewrite ids_mark_pending. auto. Qed.
+
+Lemma held_iff m t :
+  In t (held m) <-> In t (m_in m) \/ In t (m_re m) \/ In t (executing m) \/ In t (add_held (m_add m)) \/ In t (p_held (m_poll m)).
+Proof. unfold held. rewrite !in_app_iff. tauto. Qed.
+
+Lemma failedb_true_row t s : failedb t s = true -> exists r, In r s /\ r_id r = t /\ r_st r = Failed.
+Proof.
+  unfold failedb. rewrite existsb_exists. intros [r [Hin E]]. apply andb_true_iff in E as [E1 E2].
+  apply N.eqb_eq in E1. exists r. repeat split; auto. unfold is_failed in E2. destruct (r_st r); [discriminate|reflexivity].
+Qed.
+
+Lemma failedb_stored t s : failedb t s = true -> storedb t s = true.
+Proof. intros H. apply failedb_true_row in H as [r [H1 [H2 _]]]. apply storedb_In. subst. apply in_map. assumption. Qed.
+
+Lemma snap_ok_tail sto sto' r rest :
+  NoDup (map r_id (r :: rest)) -> (forall x, In x (r :: rest) -> In x sto /\ r_st x = Failed) ->
+  (forall x, In x sto -> r_id x <> r_id r -> In x sto') ->
+  NoDup (map r_id rest) /\ (forall x, In x rest -> In x sto' /\ r_st x = Failed).
+Proof.
+  intros Hn H K. cbn in Hn. inversion Hn; subst. split; [assumption|].
+  intros x Hx. destruct (H x (or_intror Hx)) as [H4 H5]. split; [|assumption].
+  apply K; [assumption|]. intros E. apply H2. rewrite <- E. apply in_map. assumption.
+Qed.
+
+Lemma last_ev_cons_other e log t : ev_task e <> t -> last_ev t (e :: log) = last_ev t log.
+Proof. intros H. unfold last_ev. cbn. destruct (ev_task e =? t) eqn:E; [apply N.eqb_eq in E; contradiction|reflexivity]. Qed.
+Lemma last_ev_cons_same e log : last_ev (ev_task e) (e :: log) = Some e.
+Proof. unfold last_ev. cbn. rewrite N.eqb_refl. reflexivity. Qed.
+
+Lemma held_le1 sto m t : held_ok sto m -> (cnt (held m) t <= 1)%nat.
+Proof. intros H. rewrite (H t). destruct (pendingb t sto); lia. Qed.
+
+Lemma cnt_in_ge1 l t : In t l -> (1 <= cnt l t)%nat.
+Proof. intros H. apply (count_occ_In N.eq_dec) in H. lia. Qed.
+
 Lemma inv_step s o : Inv s -> Inv (fst (step s o)).
 Proof.
   destruct s as [c sto now mg log]. unfold Inv. cbn [s_store s_mgr s_log]. intros [Hn Hm].
   destruct o; unfold step; cbn [s_store s_mgr s_log s_cfg s_now].
   - (* Start *) destruct mg as [m|]; [cbn; auto|].
     destruct (order_ok order (pending_ids sto)) eqn:O; [|cbn; auto].
-    cbn.
+    cbn. split; [change (NoDup (ids (mark_failed_all order now sto))); rewrite ids_mark_failed_all; assumption|].
+    split; [|split].
+    + intros t. cbn. rewrite pendingb_mark_failed_all. destruct (memb t order) eqn:E; cbn; [reflexivity|].
+      destruct (pendingb t sto) eqn:P; [|reflexivity]. apply in_pending_ids in P.
+      apply (order_ok_spec _ _ O) in P. apply memb_In in P. congruence.
+    + split; cbn; [constructor|intros r []].
+    + intros w [].
+  - (* StartCrash *) destruct mg as [m|]; [cbn; auto|].
+    destruct (order_ok order (pending_ids sto)) eqn:O; [|cbn; auto].
+    cbn. split; [change (NoDup (ids (mark_failed_all (firstn_N k order) now sto))); rewrite ids_mark_failed_all; assumption|exact I].
+  - (* Crash *) cbn. auto.
+  - (* Close *) destruct mg as [m|]; [|cbn; auto]. cbn. split; [assumption|].
+    destruct Hm as [Hh [Hs Hl]]. destruct m as [cl qi qr ii ir wk ad pl]; auto.
+  - (* CloseDone *) destruct mg as [m|]; [|cbn; auto].
+    destruct (m_closed m && match m_work m with [] => true | _ => false end); cbn; auto.
+  - (* Tick *) cbn. auto.
+  - (* AddCheck *) destruct mg as [m|]; [|cbn; auto]. destruct Hm as [Hh [Hs Hl]].
+    destruct (existsb (fun p => fst p =? a) (m_add m)); [cbn; auto|].
+    destruct (m_closed m); [cbn; auto|]. cbn. split; [assumption|].
+    destruct m as [cl qi qr ii ir wk ad pl]; auto.
+  - (* AddStore *) destruct mg as [m|]; [|cbn; auto]. destruct Hm as [Hh [Hs Hl]].
+    destruct (pick (fun p => fst p =? a) (m_add m)) as [[[b [a' [t d| |]]] af]|] eqn:P; try (cbn; auto; fail).
+    apply pick_spec in P as [P _].
+    destruct (add_row t (if d =? 0 then Pending else Failed) d now sto) as [sto'|] eqn:A.
+    + apply add_row_some in A as [A ->]. pose proof (not_stored_not_pending _ _ A) as A'.
+      destruct (d =? 0); cbn.
+      * split; [apply NoDup_ids_add; assumption|]. split; [|split].
+        -- intros t0. specialize (Hh t0). destruct m as [cl qi qr ii ir wk ad pl]. cbn [m_add] in P. subst. hnorm.
+           rewrite pendingb_app, pendingb_single. cbn [count_occ status_eqb] in *. deq t t0.
+           ++ rewrite A' in *. cbn. lia.
+           ++ cbn [andb]. rewrite orb_false_r. lia.
+        -- destruct m as [cl qi qr ii ir wk ad pl]. destruct Hs as [Hs1 Hs2]. split; [exact Hs1|]. intros r Hr. destruct (Hs2 r Hr). split; [apply in_or_app; auto|assumption].
+        -- destruct m as [cl qi qr ii ir wk ad pl]. exact Hl.
+      * split; [apply NoDup_ids_add; assumption|]. split; [|split].
+        -- intros t0. specialize (Hh t0). destruct m as [cl qi qr ii ir wk ad pl]. cbn [m_add] in P. subst. hnorm.
+           rewrite pendingb_app, pendingb_single. cbn [count_occ status_eqb] in *. rewrite andb_false_r, orb_false_r. lia.
+        -- destruct m as [cl qi qr ii ir wk ad pl]. destruct Hs as [Hs1 Hs2]. split; [exact Hs1|]. intros r Hr. destruct (Hs2 r Hr). split; [apply in_or_app; auto|assumption].
+        -- destruct m as [cl qi qr ii ir wk ad pl]. exact Hl.
+    + cbn. split; [assumption|]. split; [|split].
+      * intros t0. specialize (Hh t0). destruct m as [cl qi qr ii ir wk ad pl]. cbn [m_add] in P. subst. hnorm. cbn [count_occ] in *. lia.
+      * destruct m as [cl qi qr ii ir wk ad pl]. exact Hs.
+      * destruct m as [cl qi qr ii ir wk ad pl]. exact Hl.
+  - (* AddEnq *) destruct mg as [m|]; [|cbn; auto]. destruct Hm as [Hh [Hs Hl]].
+    destruct (pick (fun p => fst p =? a) (m_add m)) as [[[b [a' [t d|t|t]]] af]|] eqn:P; try (cbn; auto; fail).
+    apply pick_spec in P as [P _].
+    destruct (has_room QIn c m); cbn; (split; [assumption|]); (split; [|split]).
+    + intros t0. specialize (Hh t0). destruct m as [cl qi qr ii ir wk ad pl]. cbn [m_add] in P. subst. hnorm.
+      cbn [count_occ] in *. lia.
+    + destruct m as [cl qi qr ii ir wk ad pl]. exact Hs.
+    + destruct m as [cl qi qr ii ir wk ad pl]. exact Hl.
+    + intros t0. specialize (Hh t0). destruct m as [cl qi qr ii ir wk ad pl]. cbn [m_add] in P. subst. hnorm.
+      cbn [count_occ] in *. lia.
+    + destruct m as [cl qi qr ii ir wk ad pl]. exact Hs.
+    + destruct m as [cl qi qr ii ir wk ad pl]. exact Hl.
+  - (* AddMark *) destruct mg as [m|]; [|cbn; auto]. destruct Hm as [Hh [Hs Hl]].
+    destruct (pick (fun p => fst p =? a) (m_add m)) as [[[b [a' [t d|t|t]]] af]|] eqn:P; try (cbn; auto; fail).
+    apply pick_spec in P as [P _]. cbn.
+    assert (Pt : pendingb t sto = true).
+    { apply (held_pending sto m); [assumption|]. apply held_iff. right. right. right. left.
+      rewrite P, add_held_app. cbn. apply in_or_app. right. left. reflexivity. }
+    split; [apply NoDup_ids_mark_failed; assumption|]. split; [|split].
+    + intros t0. specialize (Hh t0). destruct m as [cl qi qr ii ir wk ad pl]. cbn [m_add] in P. subst. hnorm.
+      rewrite pendingb_upd_failed. cbn [count_occ] in *. deq t t0.
+      * rewrite Pt in Hh. cbn. lia.
+      * cbn. lia.
+    + apply (snap_ok_store sto _ m); [assumption|destruct m; reflexivity|]. apply keep_failed_mark; assumption.
+    + destruct m as [cl qi qr ii ir wk ad pl]. exact Hl.
+  - (* PollGet *) destruct mg as [m|]; [|cbn; auto]. destruct Hm as [Hh [Hs Hl]].
+    destruct (m_poll m) eqn:Pl; [cbn; auto|].
+    destruct (order_ok order (failed_ids sto)) eqn:O; [|cbn; auto]. cbn.
+    apply order_ok_spec in O as [O1 O2].
+    split; [assumption|]. split; [|split].
+    + intros t0. specialize (Hh t0). destruct m as [cl qi qr ii ir wk ad pl]. cbn [m_poll] in Pl. subst. exact Hh.
+    + destruct m as [cl qi qr ii ir wk ad pl]. unfold snap_ok. cbn. split.
+      * rewrite ids_get_rows; [assumption|]. intros t Ht. apply O2, in_failed_ids in Ht. apply failedb_stored. assumption.
+      * intros r Hr. apply in_get_rows in Hr as [H1 H2]. split; [assumption|].
+        apply O2, in_failed_ids, failedb_true_row in H2 as [r' [K1 [K2 K3]]].
+        rewrite <- (row_unique sto r' r Hn K1 H1 K2). assumption.
+    + destruct m as [cl qi qr ii ir wk ad pl]. exact Hl.
+  - (* PollNext *) destruct mg as [m|]; [|cbn; auto]. destruct Hm as [Hh [Hs Hl]].
+    destruct (m_poll m) as [[[|r rest]|t rest|t rest]|] eqn:Pl; try (cbn; auto; fail).
+    + cbn. split; [assumption|]. split; [|split].
+      * intros t0. specialize (Hh t0). destruct m as [cl qi qr ii ir wk ad pl]. cbn [m_poll] in Pl. subst. exact Hh.
+      * destruct m as [cl qi qr ii ir wk ad pl]. split; cbn; [constructor|intros ? []].
+      * destruct m as [cl qi qr ii ir wk ad pl]. exact Hl.
+    + destruct Hs as [Hs1 Hs2]. rewrite Pl in Hs1, Hs2. cbn [p_rest] in Hs1, Hs2.
+      destruct (due (c_ri c) now r); [destruct (storedb (r_id r) sto) eqn:St|]; cbn.
+      * split; [apply NoDup_ids_mark_pending; assumption|]. split; [|split].
+        -- destruct (Hs2 r (or_introl eq_refl)) as [K1 K2].
+           pose proof (failed_not_pending sto r Hn K1 K2) as K3.
+           intros t0. specialize (Hh t0). destruct m as [cl qi qr ii ir wk ad pl]. cbn [m_poll] in Pl. subst. hnorm.
+           rewrite pendingb_mark_pending. cbn [count_occ] in *. deq (r_id r) t0.
+           ++ rewrite K3 in Hh. rewrite St. lia.
+           ++ lia.
+        -- destruct m as [cl qi qr ii ir wk ad pl]. unfold snap_ok. cbn.
+           apply (snap_ok_tail sto _ r rest Hs1 Hs2). intros x Hx Hne. apply In_upd_other; assumption.
+        -- destruct m as [cl qi qr ii ir wk ad pl]. exact Hl.
+      * split; [assumption|]. split; [|split].
+        -- intros t0. specialize (Hh t0). destruct m as [cl qi qr ii ir wk ad pl]. cbn [m_poll] in Pl. subst. exact Hh.
+        -- destruct m as [cl qi qr ii ir wk ad pl]. unfold snap_ok. cbn.
+           apply (snap_ok_tail sto _ r rest Hs1 Hs2). auto.
+        -- destruct m as [cl qi qr ii ir wk ad pl]. exact Hl.
+      * split; [assumption|]. split; [|split].
+        -- intros t0. specialize (Hh t0). destruct m as [cl qi qr ii ir wk ad pl]. cbn [m_poll] in Pl. subst. exact Hh.
+        -- destruct m as [cl qi qr ii ir wk ad pl]. unfold snap_ok. cbn.
+           apply (snap_ok_tail sto _ r rest Hs1 Hs2). auto.
+        -- destruct m as [cl qi qr ii ir wk ad pl]. exact Hl.
+  - (* PollEnq *) destruct mg as [m|]; [|cbn; auto]. destruct Hm as [Hh [Hs Hl]].
+    destruct (m_poll m) as [[rest|t rest|t rest]|] eqn:Pl; try (cbn; auto; fail).
+    destruct (has_room QRe c m); cbn; (split; [assumption|]); (split; [|split]).
+    + intros t0. specialize (Hh t0). destruct m as [cl qi qr ii ir wk ad pl]. cbn [m_poll] in Pl. subst. hnorm.
+      cbn [count_occ] in *. lia.
+    + destruct m as [cl qi qr ii ir wk ad pl]. cbn [m_poll] in Pl. subst. exact Hs.
+    + destruct m as [cl qi qr ii ir wk ad pl]. exact Hl.
+    + intros t0. specialize (Hh t0). destruct m as [cl qi qr ii ir wk ad pl]. cbn [m_poll] in Pl. subst. exact Hh.
+    + destruct m as [cl qi qr ii ir wk ad pl]. cbn [m_poll] in Pl. subst. exact Hs.
+    + destruct m as [cl qi qr ii ir wk ad pl]. exact Hl.
+  - (* PollMark *) destruct mg as [m|]; [|cbn; auto]. destruct Hm as [Hh [Hs Hl]].
+    destruct (m_poll m) as [[rest|t rest|t rest]|] eqn:Pl; try (cbn; auto; fail). cbn.
+    assert (Pt : pendingb t sto = true).
+    { apply (held_pending sto m); [assumption|]. apply held_iff. right. right. right. right.
+      rewrite Pl. left. reflexivity. }
+    split; [apply NoDup_ids_mark_failed; assumption|]. split; [|split].
+    + intros t0. specialize (Hh t0). destruct m as [cl qi qr ii ir wk ad pl]. cbn [m_poll] in Pl. subst. hnorm.
+      rewrite pendingb_upd_failed. cbn [count_occ] in *. deq t t0.
+      * rewrite Pt in Hh. cbn. lia.
+      * cbn. lia.
+    + apply (snap_ok_store sto _ m); [assumption|destruct m; cbn in *; rewrite Pl; reflexivity|]. apply keep_failed_mark; assumption.
+    + destruct m as [cl qi qr ii ir wk ad pl]. exact Hl.
+  - (* Deq *) destruct mg as [m|]; [|cbn; auto]. destruct Hm as [Hh [Hs Hl]].
+    destruct (queue_of q m) as [|t tl] eqn:Q; [cbn; auto|].
+    destruct (0 <? idle_of q m); [|cbn; auto]. cbn.
+    split; [assumption|]. split; [|split].
+    + intros t0. specialize (Hh t0). destruct m as [cl qi qr ii ir wk ad pl]. destruct q; cbn in Q; subst; hnorm;
+        cbn [count_occ] in *; destruct (N.eq_dec t t0); lia.
+    + destruct m as [cl qi qr ii ir wk ad pl]. destruct q; exact Hs.
+    + assert (Hq : In t (m_in m) \/ In t (m_re m)).
+      { destruct q; cbn in Q; rewrite Q; [left|right]; left; reflexivity. }
+      assert (Hw : forall w, In w (m_work m) -> w_t w <> t).
+      { intros w Hw E. pose proof (held_le1 sto m t Hh) as L. unfold held in L. rewrite !count_occ_app in L.
+        assert (1 <= cnt (executing m) t)%nat by (apply cnt_in_ge1; unfold executing; rewrite <- E; apply in_map; assumption).
+        destruct Hq as [Hq|Hq]; apply cnt_in_ge1 in Hq; lia. }
+      destruct m as [cl qi qr ii ir wk ad pl]. intros w Hin.
+      assert (Hin' : w = mkw q t WRun \/ In w wk) by (destruct q; cbn in Hin; destruct Hin; auto).
+      destruct Hin' as [->|Hin'].
+      * cbn. apply (last_ev_cons_same (EStart t)).
+      * rewrite last_ev_cons_other; [apply Hl; assumption|]. cbn. intros E. apply (Hw w Hin'). auto.
+  - (* ExecRet *) destruct mg as [m|]; [|cbn; auto]. destruct Hm as [Hh [Hs Hl]].
+    destruct (pick (fun w => (w_t w =? t) && is_run w) (m_work m)) as [[[b w] af]|] eqn:P; [|cbn; auto].
+    apply pick_spec in P as [P Pf]. apply andb_true_iff in Pf as [Pf1 Pf2]. apply N.eqb_eq in Pf1. subst t. cbn.
+    split; [assumption|]. split; [|split].
+    + intros t0. specialize (Hh t0). destruct m as [cl qi qr ii ir wk ad pl]. cbn [m_work] in P. subst. hnorm. exact Hh.
+    + destruct m as [cl qi qr ii ir wk ad pl]. exact Hs.
+    + assert (Hw : forall w', In w' (b ++ af) -> w_t w' <> w_t w).
+      { intros w' Hw' E. pose proof (held_le1 sto m (w_t w) Hh) as L. unfold held, executing in L. rewrite P in L.
+        rewrite !count_occ_app, map_app, count_occ_app in L. cbn [map] in L. rewrite count_occ_cons_eq in L by reflexivity.
+        apply in_app_or in Hw'. destruct Hw' as [Hw'|Hw'];
+          apply (in_map w_t) in Hw'; rewrite E in Hw'; apply cnt_in_ge1 in Hw'; lia. }
+      destruct m as [cl qi qr ii ir wk ad pl]. cbn [m_work] in P. subst wk. intros w' Hin. cbn [m_work set_work] in Hin.
+      apply in_app_or in Hin. cbn [In] in Hin.
+      assert (Hin' : mkw (w_q w) (w_t w) (WFin ok) = w' \/ In w' (b ++ af)) by (rewrite in_app_iff; tauto).
+      destruct Hin' as [<-|Hin'].
+      * cbn. apply (last_ev_cons_same (ERet (w_t w) ok)).
+      * rewrite last_ev_cons_other; [|cbn; intros E; apply (Hw w' Hin'); auto].
+        apply Hl. cbn. apply in_app_or in Hin'. apply in_or_app. cbn. tauto.
+  - (* ExecFin *) destruct mg as [m|]; [|cbn; auto]. destruct Hm as [Hh [Hs Hl]].
+    destruct (pick (fun w => (w_t w =? t) && is_fin w) (m_work m)) as [[[b w] af]|] eqn:P; [|cbn; auto].
+    apply pick_spec in P as [P Pf]. apply andb_true_iff in Pf as [Pf1 Pf2]. apply N.eqb_eq in Pf1.
+    assert (Pt : pendingb t sto = true).
+    { apply (held_pending sto m); [assumption|]. apply held_iff. right. right. left.
+      unfold executing. rewrite P, map_app. apply in_or_app. right. left. assumption. }
+    assert (Hl' : log_ok log (set_idle (w_q w) (idle_of (w_q w) m + 1) (set_work (b ++ af) m))).
+    { intros w' Hin. apply Hl. destruct m as [cl qi qr ii ir wk ad pl]. cbn [m_work] in *. subst wk.
+      destruct (w_q w); cbn in Hin; apply in_app_or in Hin; apply in_or_app; cbn; tauto. }
+    assert (Hc : forall t0, (cnt (held (set_idle (w_q w) (idle_of (w_q w) m + 1) (set_work (b ++ af) m))) t0
+                             + (if N.eq_dec t t0 then 1 else 0) = cnt (held m) t0)%nat).
+    { intros t0. destruct m as [cl qi qr ii ir wk ad pl]. cbn [m_work] in *. subst wk.
+      destruct (w_q w); hnorm; cbn [count_occ]; rewrite Pf1; destruct (N.eq_dec t t0); lia. }
+    destruct (w_ph w) as [|[|]]; cbn.
+    + split; [apply NoDup_ids_mark_failed; assumption|]. split; [|split; [|exact Hl']].
+      * intros t0. specialize (Hh t0). specialize (Hc t0). rewrite pendingb_upd_failed.
+        destruct (N.eq_dec t t0) as [E|E]; [subst; rewrite N.eqb_refl; rewrite Pt in Hh; cbn; lia|].
+        rewrite (proj2 (N.eqb_neq t0 t)) by auto. cbn. lia.
+      * apply (snap_ok_store sto _ m); [assumption|destruct m, (w_q w); reflexivity|]. apply keep_failed_mark; assumption.
+    + split; [apply NoDup_ids_remove; assumption|]. split; [|split; [|exact Hl']].
+      * intros t0. specialize (Hh t0). specialize (Hc t0). rewrite pendingb_remove.
+        destruct (N.eq_dec t t0) as [E|E]; [subst; rewrite N.eqb_refl; rewrite Pt in Hh; cbn; lia|].
+        rewrite (proj2 (N.eqb_neq t0 t)) by auto. cbn. lia.
+      * apply (snap_ok_store sto _ m); [assumption|destruct m, (w_q w); reflexivity|]. apply keep_failed_remove; assumption.
+    + split; [apply NoDup_ids_mark_failed; assumption|]. split; [|split; [|exact Hl']].
+      * intros t0. specialize (Hh t0). specialize (Hc t0). rewrite pendingb_upd_failed.
+        destruct (N.eq_dec t t0) as [E|E]; [subst; rewrite N.eqb_refl; rewrite Pt in Hh; cbn; lia|].
+        rewrite (proj2 (N.eqb_neq t0 t)) by auto. cbn. lia.
+      * apply (snap_ok_store sto _ m); [assumption|destruct m, (w_q w); reflexivity|]. apply keep_failed_mark; assumption.
+  - (* Observe *) cbn. auto.
+Qed.
